@@ -16,7 +16,7 @@ use stellar_accounts::smart_account::{ContextRule, ContextRuleType, Signer};
 use stellar_tokens::rwa::{
     claim_issuer::SigningKey,
     compliance::ComplianceHook,
-    extensions::doc_manager::Document,
+    extensions::doc_manager::{Document, DocumentStorageKey},
     identity_claims::Claim,
     identity_registry_storage::{CountryData, CountryRelation, IdentityProfile, IdentityType, IndividualCountryRelation},
 };
@@ -319,6 +319,7 @@ const MAX_TTL: u32 = 3_000_000;
 fn env() -> Env {
     let e = new_env(100, 16, MAX_TTL);
     e.cost_estimate().disable_resource_limits();
+    e.cost_estimate().budget().reset_unlimited();
     e
 }
 
@@ -439,11 +440,15 @@ trait Reg {
 }
 
 fn drive(t: &mut Trace, r: &mut dyn Reg, op: &str) -> bool {
+    let t0 = std::time::Instant::now();
     t.op(op);
     let ws: Vec<&str> = op.split(' ').filter(|w| !w.is_empty()).collect();
     let (ok, extra) = r.exec(&ws);
     let st = r.state(&ws);
     t.obs(&format!("{} {}{}", if ok { "ok" } else { "err" }, extra, st));
+    if std::env::var("C20_TIMING").is_ok() && t0.elapsed().as_millis() > 40 {
+        eprintln!("{:>6} ms  {}", t0.elapsed().as_millis(), &op[..op.len().min(70)]);
+    }
     ok
 }
 
@@ -589,7 +594,7 @@ fn keys_scenarios(t: &mut Trace, rng: &mut Rng, thorough: bool) {
         let alphabet: Vec<String> = (0..8u32)
             .map(|i| format!("keys {} k=1 s=1 r={} t={}", if i & 4 == 0 { "allow" } else { "remove" }, i & 1, (i >> 1) & 1))
             .collect();
-        exhaustive(t, "keys exhaustive nk=1 nt=2", &alphabet, 4, &mut || Box::new(KeysSim::new(1, 2)));
+        exhaustive(t, "keys exhaustive nk=1 nt=2", &alphabet, 5, &mut || Box::new(KeysSim::new(1, 2)));
     }
 }
 
@@ -614,6 +619,53 @@ impl TopicsSim {
     }
     fn ts(&self, l: &[u32]) -> SVec<u32> {
         SVec::from_slice(&self.e, l)
+    }
+}
+impl TopicsSim {
+    /// ~70 % operations that the current state accepts, ~30 % arbitrary ones
+    fn gen(&self, rng: &mut Rng) -> String {
+        let e = &self.e;
+        let topics: Vec<u32> = q::<SVec<u32>>(e, &self.c, "get_claim_topics", args(e, [])).unwrap().iter().collect();
+        let issuers: Vec<u32> = q::<SVec<Address>>(e, &self.c, "get_trusted_issuers", args(e, []))
+            .unwrap()
+            .iter()
+            .map(|a| self.iss.idx_n(&a) as u32)
+            .collect();
+        let valid = rng.chance(70);
+        let free_t: Vec<u32> = (0..self.nt).filter(|t| !topics.contains(t)).collect();
+        let free_i: Vec<u32> = (0..self.ni).filter(|i| !issuers.contains(i)).collect();
+        let any_t = |rng: &mut Rng| rng.below(self.nt as u64) as u32;
+        let any_i = |rng: &mut Rng| rng.below(self.ni as u64) as u32;
+        let subset = |rng: &mut Rng| -> Vec<u32> {
+            if valid && !topics.is_empty() {
+                let mut l: Vec<u32> = topics.iter().cloned().filter(|_| rng.chance(55)).collect();
+                if l.is_empty() {
+                    l.push(*rng.pick(&topics));
+                }
+                if rng.chance(50) {
+                    l.reverse();
+                }
+                l
+            } else {
+                let mut l: Vec<u32> = (0..self.nt).filter(|_| rng.chance(45)).collect();
+                if rng.chance(20) && !l.is_empty() {
+                    l.push(l[0]);
+                }
+                l
+            }
+        };
+        let r = rng.below(100);
+        if r < 22 || (valid && topics.is_empty()) {
+            format!("topics add_topic t={}", if valid && !free_t.is_empty() { *rng.pick(&free_t) } else { any_t(rng) })
+        } else if r < 34 {
+            format!("topics remove_topic t={}", if valid { *rng.pick(&topics) } else { any_t(rng) })
+        } else if r < 60 || (valid && issuers.is_empty()) {
+            format!("topics add_issuer i={} ts={}", if valid && !free_i.is_empty() { *rng.pick(&free_i) } else { any_i(rng) }, lst(&subset(rng)))
+        } else if r < 72 {
+            format!("topics remove_issuer i={}", if valid { *rng.pick(&issuers) } else { any_i(rng) })
+        } else {
+            format!("topics update i={} ts={}", if valid { *rng.pick(&issuers) } else { any_i(rng) }, lst(&subset(rng)))
+        }
     }
 }
 impl Reg for TopicsSim {
@@ -739,28 +791,7 @@ fn topics_scenarios(t: &mut Trace, rng: &mut Rng, thorough: bool) {
         t.seq(&format!("topics rand k={} nt=4 ni=4", k));
         let mut s = TopicsSim::new(4, 4, 4);
         for _ in 0..40 {
-            let r = rng.below(100);
-            let subset = |rng: &mut Rng| -> Vec<u32> {
-                let mut l: Vec<u32> = (0..4).filter(|_| rng.chance(45)).collect();
-                if rng.chance(50) {
-                    l.reverse();
-                }
-                if rng.chance(6) && !l.is_empty() {
-                    l.push(l[0]);
-                }
-                l
-            };
-            let op = if r < 25 {
-                format!("topics add_topic t={}", rng.below(4))
-            } else if r < 38 {
-                format!("topics remove_topic t={}", rng.below(4))
-            } else if r < 62 {
-                format!("topics add_issuer i={} ts={}", rng.below(4), lst(&subset(rng)))
-            } else if r < 75 {
-                format!("topics remove_issuer i={}", rng.below(4))
-            } else {
-                format!("topics update i={} ts={}", rng.below(4), lst(&subset(rng)))
-            };
+            let op = s.gen(rng);
             drive(t, &mut s, &op);
         }
     }
@@ -796,7 +827,7 @@ impl BinderSim {
     fn new(u: u32) -> BinderSim {
         let e = env();
         let c = e.register(BinderC, ());
-        let toks = Book::new(&e, if u > 0 { u as usize + 2 } else { 10_300 });
+        let toks = Book::new(&e, if u > 0 { u as usize + 2 } else { 20_002 });
         BinderSim { e, c, toks, u }
     }
 }
@@ -809,6 +840,19 @@ impl Reg for BinderSim {
             "bind_many" => {
                 let l: Vec<Address> = kvl(ws, "ts").iter().map(|i| self.toks.a(*i).clone()).collect();
                 run(e, &self.c, "bind_tokens", args(e, [v(e, SVec::from_slice(e, &l))]))
+            }
+            "preload" => {
+                // state injection (quick tier): the storage `bind_tokens` leaves after binding the
+                // tokens 0..n-1 in order to an empty binder (the thorough tier does it for real)
+                let n = kvn(ws, "n");
+                e.as_contract(&self.c, || {
+                    for b in 0..(n + 99) / 100 {
+                        let l: Vec<Address> = (b * 100..n.min(b * 100 + 100)).map(|i| self.toks.a(i).clone()).collect();
+                        e.storage().persistent().set(&TokenBinderStorageKey::TokenBucket(b), &SVec::from_slice(e, &l));
+                    }
+                    e.storage().persistent().set(&TokenBinderStorageKey::TotalCount, &n);
+                });
+                Some(().into_val(e))
             }
             _ => unreachable!(),
         };
@@ -833,6 +877,7 @@ impl Reg for BinderSim {
                         vec![l[0], *l.last().unwrap()]
                     }
                 }
+                "preload" => vec![],
                 _ => vec![kvn(ws, "t")],
             };
             optoks.extend([0, 1, 99, 100, 101, 199, 200, 201, 9999, 10000]);
@@ -881,6 +926,34 @@ impl Reg for BinderSim {
             sep(",", &ix),
             sep(",", &at)
         )
+    }
+}
+
+/// 9999 tokens 0..9998 are bound. (`bind_tokens` copies a host map per already-bound token:
+/// an ACCEPTED batch at ~10 000 tokens takes seconds; the quick tier only sends refused ones.)
+fn binder_at_limit(t: &mut Trace, s: &mut BinderSim, slow: bool) {
+    if slow {
+        drive(t, s, "binder bind_many ts=20000..20001");
+        drive(t, s, "binder unbind t=20000");
+    }
+    for op in [
+        "binder bind_many ts=9999..10001",
+        "binder bind t=9999",
+        "binder bind t=10000",
+        "binder bind_many ts=10000..10001",
+        "binder unbind t=0",
+        "binder unbind t=9999",
+        "binder unbind t=9998",
+        "binder bind t=10002",
+        "binder bind t=10000",
+        "binder bind t=10001",
+        "binder bind_many ts=10004..10005",
+        "binder bind t=10003",
+        "binder unbind t=5000",
+        "binder bind t=10003",
+        "binder bind t=5000",
+    ] {
+        drive(t, s, op);
     }
 }
 
@@ -943,21 +1016,19 @@ fn binder_scenarios(t: &mut Trace, rng: &mut Rng, thorough: bool) {
         let x = *rng.pick(&cands);
         drive(t, &mut s, &format!("binder unbind t={}", x));
     }
-    t.seq("binder directed the limit of 10000 tokens big=1");
-    let mut s = BinderSim::new(0);
-    for k in 0..49u32 {
-        drive(t, &mut s, &format!("binder bind_many ts={}..{}", k * 200, k * 200 + 200));
+    if thorough && first_shard() {
+        t.seq("binder directed the limit of 10000 tokens from empty big=1");
+        let mut s = BinderSim::new(0);
+        for k in 0..49u32 {
+            drive(t, &mut s, &format!("binder bind_many ts={}..{}", k * 200, k * 200 + 200));
+        }
+        drive(t, &mut s, "binder bind_many ts=9800..9999");
+        binder_at_limit(t, &mut s, true);
     }
-    drive(t, &mut s, "binder bind_many ts=9800..9999");
-    drive(t, &mut s, "binder bind_many ts=9999..10001");
-    drive(t, &mut s, "binder bind t=9999");
-    drive(t, &mut s, "binder bind t=10000");
-    drive(t, &mut s, "binder bind_many ts=10000..10001");
-    drive(t, &mut s, "binder unbind t=0");
-    drive(t, &mut s, "binder unbind t=9999");
-    drive(t, &mut s, "binder bind_many ts=10000..10002");
-    drive(t, &mut s, "binder bind_many ts=10000..10003");
-    drive(t, &mut s, "binder bind t=10002");
+    t.seq("binder directed the limit of 10000 tokens (9999 preloaded) big=1");
+    let mut s = BinderSim::new(0);
+    drive(t, &mut s, "binder preload n=9999");
+    binder_at_limit(t, &mut s, false);
     let nseq = if thorough { 200 } else { 16 };
     for k in 0..nseq {
         t.seq(&format!("binder rand k={} u=6", k));
@@ -980,7 +1051,7 @@ fn binder_scenarios(t: &mut Trace, rng: &mut Rng, thorough: bool) {
             .iter()
             .map(|x| x.to_string())
             .collect();
-        exhaustive(t, "binder exhaustive u=3", &alphabet, 5, &mut || Box::new(BinderSim::new(3)));
+        exhaustive(t, "binder exhaustive u=3", &alphabet, 6, &mut || Box::new(BinderSim::new(3)));
     }
 }
 
@@ -1022,6 +1093,23 @@ impl Reg for DocsSim {
                 }
                 all
             }
+            "preload" => {
+                // state injection (quick tier): the storage left by `set_document` for the names
+                // 0..n-1 in order on an empty manager (the thorough tier does it for real)
+                let (n, u, h, ts) = (kvn(ws, "n"), kvn(ws, "u"), kvn(ws, "h"), kvn(ws, "ts"));
+                let doc = Document { uri: SString::from_str(e, &"a".repeat(u as usize)), document_hash: bn32(e, h), timestamp: ts as u64 };
+                e.as_contract(&self.c, || {
+                    for b in 0..(n + 49) / 50 {
+                        let l: Vec<(BytesN<32>, Document)> = (b * 50..n.min(b * 50 + 50)).map(|i| (bn32(e, i), doc.clone())).collect();
+                        e.storage().persistent().set(&DocumentStorageKey::Bucket(b), &SVec::from_slice(e, &l));
+                    }
+                    for i in 0..n {
+                        e.storage().persistent().set(&DocumentStorageKey::Index(bn32(e, i)), &i);
+                    }
+                    e.storage().persistent().set(&DocumentStorageKey::Count, &n);
+                });
+                true
+            }
             _ => unreachable!(),
         };
         (ok, String::new())
@@ -1046,6 +1134,7 @@ impl Reg for DocsSim {
         } else {
             let mut ns: Vec<u32> = match ws[1] {
                 "fill" => vec![kvn(ws, "a"), kvn(ws, "b").saturating_sub(1)],
+                "preload" => vec![],
                 _ => vec![kvn(ws, "n")],
             };
             ns.extend([0, 1, 49, 50, 51, 4999, 5000]);
@@ -1092,6 +1181,26 @@ impl Reg for DocsSim {
             sep(",", &at),
             sep(",", &bk)
         )
+    }
+}
+
+/// 4999 documents 0..4998 are stored
+fn docs_at_limit(t: &mut Trace, s: &mut DocsSim) {
+    for op in [
+        "docs fill a=4999 b=5001 u=2 h=3 ts=3001",
+        "docs remove n=4999",
+        "docs set n=4999 u=2 h=3 ts=3001",
+        "docs set n=5000 u=2 h=3 ts=3002",
+        "docs set n=17 u=9 h=9 ts=3003",
+        "docs remove n=17",
+        "docs fill a=5000 b=5002 u=2 h=3 ts=3004",
+        "docs remove n=4999",
+        "docs remove n=0",
+        "docs set n=5001 u=2 h=3 ts=3005",
+        "docs set n=5002 u=2 h=3 ts=3006",
+        "docs set n=5003 u=2 h=3 ts=3006",
+    ] {
+        drive(t, s, op);
     }
 }
 
@@ -1144,20 +1253,19 @@ fn docs_scenarios(t: &mut Trace, rng: &mut Rng, thorough: bool) {
         drive(t, &mut s, &format!("docs remove n={}", rng.below(160)));
     }
     // the limit of 5000 documents
-    t.seq("docs directed the limit of 5000 documents big=1");
-    let mut s = DocsSim::new(0);
-    for k in 0..24u32 {
-        drive(t, &mut s, &format!("docs fill a={} b={} u=2 h=3 ts=3000", k * 200, k * 200 + 200));
+    if thorough && first_shard() {
+        t.seq("docs directed the limit of 5000 documents from empty big=1");
+        let mut s = DocsSim::new(0);
+        for k in 0..24u32 {
+            drive(t, &mut s, &format!("docs fill a={} b={} u=2 h=3 ts=3000", k * 200, k * 200 + 200));
+        }
+        drive(t, &mut s, "docs fill a=4800 b=4999 u=2 h=3 ts=3000");
+        docs_at_limit(t, &mut s);
     }
-    drive(t, &mut s, "docs fill a=4800 b=4999 u=2 h=3 ts=3000");
-    drive(t, &mut s, "docs set n=4999 u=2 h=3 ts=3001");
-    drive(t, &mut s, "docs set n=5000 u=2 h=3 ts=3002");
-    drive(t, &mut s, "docs set n=17 u=9 h=9 ts=3003");
-    drive(t, &mut s, "docs remove n=17");
-    drive(t, &mut s, "docs fill a=5000 b=5002 u=2 h=3 ts=3004");
-    drive(t, &mut s, "docs remove n=4999");
-    drive(t, &mut s, "docs set n=5001 u=2 h=3 ts=3005");
-    drive(t, &mut s, "docs set n=5002 u=2 h=3 ts=3006");
+    t.seq("docs directed the limit of 5000 documents (4999 preloaded) big=1");
+    let mut s = DocsSim::new(0);
+    drive(t, &mut s, "docs preload n=4999 u=2 h=3 ts=3000");
+    docs_at_limit(t, &mut s);
     let nseq = if thorough { 200 } else { 16 };
     for k in 0..nseq {
         t.seq(&format!("docs rand k={} u=5", k));
@@ -1182,7 +1290,7 @@ fn docs_scenarios(t: &mut Trace, rng: &mut Rng, thorough: bool) {
             .iter()
             .map(|x| x.to_string())
             .collect();
-        exhaustive(t, "docs exhaustive u=3", &alphabet, 5, &mut || Box::new(DocsSim::new(3)));
+        exhaustive(t, "docs exhaustive u=3", &alphabet, 6, &mut || Box::new(DocsSim::new(3)));
     }
 }
 
@@ -1240,6 +1348,58 @@ impl IrsSim {
     }
     fn show_cds(l: &SVec<CountryData>) -> String {
         sep("+", &l.iter().map(|c| Self::show_cd(&c)).collect::<Vec<_>>())
+    }
+}
+impl IrsSim {
+    /// ~70 % operations that the current state accepts, ~30 % arbitrary ones
+    fn gen(&self, rng: &mut Rng) -> String {
+        let e = &self.e;
+        let has = |a: u32| q::<Address>(e, &self.c, "stored_identity", args(e, [v(e, self.accts.a(a))])).is_some();
+        let rec = |a: u32| q::<Option<Address>>(e, &self.c, "get_recovered_to", args(e, [v(e, self.accts.a(a))])).unwrap().is_some();
+        let ncd = |a: u32| q::<SVec<CountryData>>(e, &self.c, "get_country_entries", args(e, [v(e, self.accts.a(a))])).unwrap().len();
+        let reg: Vec<u32> = (0..self.na).filter(|a| has(*a)).collect();
+        let free: Vec<u32> = (0..self.na).filter(|a| !has(*a) && !rec(*a)).collect();
+        let valid = rng.chance(70);
+        let cdg = |rng: &mut Rng, valid: bool| -> String {
+            match if valid { 9 } else { rng.below(10) } {
+                0 => format!("{}/11/1", rng.below(900)),
+                1 => format!("{}/1/101", rng.below(900)),
+                2 => format!("{}/10/100", rng.below(900)),
+                _ => if rng.chance(15) { format!("{}/{}/{}", rng.below(900), rng.range(1, 10), rng.range(0, 100)) } else { format!("{}/0/0", rng.below(900)) },
+            }
+        };
+        let any = |rng: &mut Rng| rng.below(self.na as u64) as u32;
+        let pick_reg = |rng: &mut Rng| if valid && !reg.is_empty() { *rng.pick(&reg) } else { any(rng) };
+        let pick_free = |rng: &mut Rng| if valid && !free.is_empty() { *rng.pick(&free) } else { any(rng) };
+        let r = rng.below(100);
+        if r < 22 || (valid && reg.is_empty()) {
+            let n = if valid { *rng.pick(&[1u64, 1, 2, 3, 14, 15]) } else { *rng.pick(&[0u64, 1, 2, 15, 16]) };
+            let cs: Vec<String> = (0..n).map(|_| cdg(rng, valid)).collect();
+            format!("irs add a={} id={} ty={} cs={}", pick_free(rng), rng.below(3), rng.below(2), sep(",", &cs))
+        } else if r < 30 {
+            format!("irs modify a={} id={}", pick_reg(rng), rng.below(3))
+        } else if r < 40 {
+            format!("irs remove a={}", pick_reg(rng))
+        } else if r < 58 {
+            format!("irs recover old={} new={}", pick_reg(rng), pick_free(rng))
+        } else if r < 74 {
+            let a = pick_reg(rng);
+            let room = 15u64.saturating_sub(ncd(a) as u64);
+            let n = if valid { if room == 0 { 1 } else { *rng.pick(&[1, 1, 2, room]) }.min(room.max(1)) } else { *rng.pick(&[0u64, room + 1, 1]) };
+            let cs: Vec<String> = (0..n).map(|_| cdg(rng, valid)).collect();
+            format!("irs add_countries a={} cs={}", a, sep(",", &cs))
+        } else if r < 87 {
+            let a = pick_reg(rng);
+            let n = ncd(a) as u64;
+            let i = if valid && n > 0 { rng.below(n) } else { n + rng.below(2) };
+            format!("irs modify_country a={} i={} c={}", a, i, cdg(rng, valid))
+        } else {
+            let a = pick_reg(rng);
+            let n = ncd(a) as u64;
+            let mid = rng.below(n.max(1));
+            let i = if valid && n > 0 { *rng.pick(&[0, n - 1, mid]) } else { n + rng.below(2) };
+            format!("irs delete_country a={} i={}", a, i)
+        }
     }
 }
 impl Reg for IrsSim {
@@ -1345,35 +1505,7 @@ fn irs_scenarios(t: &mut Trace, rng: &mut Rng, thorough: bool) {
         t.seq(&format!("irs rand k={} na=4", k));
         let mut s = IrsSim::new(4);
         for _ in 0..40 {
-            let r = rng.below(100);
-            let a = rng.below(4);
-            let cdg = |rng: &mut Rng| -> String {
-                match rng.below(10) {
-                    0 => format!("{}/10/100", rng.below(900)),
-                    1 => format!("{}/11/1", rng.below(900)),
-                    2 => format!("{}/1/101", rng.below(900)),
-                    _ => format!("{}/0/0", rng.below(900)),
-                }
-            };
-            let op = if r < 25 {
-                let n = *rng.pick(&[0u64, 1, 1, 2, 3, 14, 15, 16]);
-                let cs: Vec<String> = (0..n).map(|_| cdg(rng)).collect();
-                format!("irs add a={} id={} ty={} cs={}", a, rng.below(3), rng.below(2), sep(",", &cs))
-            } else if r < 33 {
-                format!("irs modify a={} id={}", a, rng.below(3))
-            } else if r < 43 {
-                format!("irs remove a={}", a)
-            } else if r < 60 {
-                format!("irs recover old={} new={}", a, rng.below(4))
-            } else if r < 75 {
-                let n = *rng.pick(&[0u64, 1, 1, 2, 7, 13, 14]);
-                let cs: Vec<String> = (0..n).map(|_| cdg(rng)).collect();
-                format!("irs add_countries a={} cs={}", a, sep(",", &cs))
-            } else if r < 87 {
-                format!("irs modify_country a={} i={} c={}", a, rng.below(4), cdg(rng))
-            } else {
-                format!("irs delete_country a={} i={}", a, rng.below(4))
-            };
+            let op = s.gen(rng);
             drive(t, &mut s, &op);
         }
     }
@@ -1907,15 +2039,23 @@ fn rules_scenarios(t: &mut Trace, rng: &mut Rng, thorough: bool) {
         .iter()
         .map(|x| x.to_string())
         .collect();
-        exhaustive(t, "rules exhaustive now=100 s0=0 p0=-", &alphabet, 4, &mut || Box::new(RulesSim::new(&[0], &[])));
+        exhaustive(t, "rules exhaustive now=100 s0=0 p0=-", &alphabet, 5, &mut || Box::new(RulesSim::new(&[0], &[])));
     }
+}
+
+/// the slow from-empty limit histories run in one shard of a thorough run only
+fn first_shard() -> bool {
+    seed_from_env() % arg_u64("--xshards", 1) == 0
 }
 
 /// every sequence of `len` ops over `alphabet`, each from a fresh registry
 fn exhaustive(t: &mut Trace, label: &str, alphabet: &[String], len: usize, fresh: &mut dyn FnMut() -> Box<dyn Reg>) {
     let n = alphabet.len();
     let total = n.pow(len as u32);
-    for code in 0..total {
+    // the shards of a thorough run (seeds base + 7919 k) split the space between them
+    let parts = arg_u64("--xshards", 1) as usize;
+    let mine = (seed_from_env() % parts as u64) as usize;
+    for code in (0..total).filter(|c| c % parts == mine) {
         t.seq(&format!("{} code={}", label, code));
         let mut s = fresh();
         let mut c = code;
